@@ -1,2 +1,14 @@
 #!/bin/sh
-exit 0
+# Build the framework from files on disk (offline): tables from /repo, full Coq .vo build,
+# extraction, OCaml driver.
+set -e
+cd "$(dirname "$0")"
+PYTHONHASHSEED=0 /venv/bin/python - <<'PY'
+import sys
+sys.path.insert(0, ".")
+from harness import core
+try:
+    print("build ok in", core.build(), "s")
+except core.BuildBroken as e:
+    print("BUILD BROKEN:", e.what); print(e.detail); sys.exit(1)
+PY
